@@ -605,20 +605,21 @@ func ruleNonceValidators(c *Ctx, rule string) {
 			// time.Since(x) calls Now internally
 			return ok && call.Call.StaticCallee() != nil && call.Call.StaticCallee().String() == "time.Since"
 		}
-		isKeyedMAC := func(v ssa.Value) bool {
+		isKeyedMACIn := func(v ssa.Value, stack []*ssa.Call) bool {
 			call, ok := v.(*ssa.Call)
 			if !ok || call.Call.StaticCallee() != hmacNew {
 				return false
 			}
-			_, fl, isL := fieldLoad(call.Call.Args[1])
+			_, fl, isL := fieldLoad(w.resolveInStack(call.Call.Args[1], stack))
 			return isL && fl.Name() == "key"
 		}
-		onKeyedMAC := isKeyedMAC
+		isKeyedMAC := func(v ssa.Value) bool { return isKeyedMACIn(v, nil) }
+		_ = isKeyedMAC
 		// the value derives from an HMAC keyed by recv.key whose written input derives from
 		// the presented nonce (followed through helper functions)
 		keyedMACOverNonce := func(v ssa.Value) bool {
 			return w.depWalk(v, nil, func(x ssa.Value, stack []*ssa.Call) bool {
-				if !isKeyedMAC(x) {
+				if !isKeyedMACIn(x, stack) {
 					return false
 				}
 				for _, wr := range w.invokeWrites(x, nil) {
@@ -642,7 +643,7 @@ func ruleNonceValidators(c *Ctx, rule string) {
 						a, b := call.Call.Args[0], call.Call.Args[1]
 						for _, pair := range [][2]ssa.Value{{a, b}, {b, a}} {
 							recvd, expd := pair[0], pair[1]
-							if dep(recvd, onParam) && !dep(recvd, onKeyedMAC) && keyedMACOverNonce(expd) {
+							if dep(recvd, onParam) && !w.depWalk(recvd, nil, isKeyedMACIn) && keyedMACOverNonce(expd) {
 								okMAC = true
 							}
 						}
@@ -687,6 +688,29 @@ func (w *World) extFunc(pkg, name string) *ssa.Function {
 		failf("anchor unresolved: %s.%s", pkg, name)
 	}
 	return w.Prog.FuncValue(obj)
+}
+
+// resolveInStack: a parameter of the function entered by the innermost call of an inlining
+// stack is the argument passed there (repeatedly).
+func (w *World) resolveInStack(v ssa.Value, stack []*ssa.Call) ssa.Value {
+	for len(stack) > 0 {
+		v = w.resolveLoad(v)
+		p, ok := stripIface(v).(*ssa.Parameter)
+		if !ok {
+			return v
+		}
+		top := stack[len(stack)-1]
+		if top.Call.StaticCallee() != p.Parent() {
+			return v
+		}
+		i := paramIndex(p)
+		if i < 0 || i >= len(top.Call.Args) {
+			return v
+		}
+		v = top.Call.Args[i]
+		stack = stack[:len(stack)-1]
+	}
+	return w.resolveLoad(v)
 }
 
 // dependsOn: backward data dependence of v reaches a value satisfying pred. Followed:
@@ -967,72 +991,81 @@ func ruleMACCoversTimestamp(c *Ctx, rule string) {
 	for _, tn := range []string{"NonceHash", "ShortNonceHash"} {
 		for _, mn := range []string{"Generate", "Validate"} {
 			root := w.Func("server", tn, mn)
-			fns := map[*ssa.Function]bool{}
-			var add func(f *ssa.Function, d int)
-			add = func(f *ssa.Function, d int) {
-				if fns[f] || !w.IsMod[f] || d > 2 {
+			// all calls of the method and its helpers (depth ≤ 2), arguments expressed in the
+			// method's own terms
+			type rcall struct {
+				call *ssa.Call
+				name string
+				full string
+				args []ssa.Value
+			}
+			var calls []rcall
+			type macIn struct {
+				h      *ssa.Call
+				writes []ssa.Value
+			}
+			var macs []macIn
+			w.eachCallThroughX(root, 2, true, func(call *ssa.Call, rs func(ssa.Value) ssa.Value) {
+				cal := call.Call.StaticCallee()
+				if cal == nil {
 					return
 				}
-				fns[f] = true
-				w.eachInstr(f, func(in ssa.Instruction) {
-					if cal := staticCallee(in); cal != nil {
-						add(cal, d+1)
+				rc := rcall{call: call, name: cal.Name(), full: cal.String()}
+				for _, a := range call.Call.Args {
+					rc.args = append(rc.args, w.resolveLoad(rs(a)))
+				}
+				calls = append(calls, rc)
+				if cal == hmacNew {
+					if _, fl, isL := fieldLoad(rc.args[1]); !isL || fl.Name() != "key" {
+						return
 					}
-				})
-			}
-			add(root, 0)
+					m := macIn{h: call}
+					for _, wr := range w.invokeWrites(call, call.Parent()) {
+						m.writes = append(m.writes, w.resolveLoad(rs(wr)))
+					}
+					macs = append(macs, m)
+				}
+			})
 			n := 0
-			for _, f := range sortedFns(fns) {
-				w.eachInstr(f, func(in ssa.Instruction) {
-					h, ok := in.(*ssa.Call)
-					if !ok || h.Call.StaticCallee() != hmacNew {
-						return
-					}
-					if _, fl, isL := fieldLoad(h.Call.Args[1]); !isL || fl.Name() != "key" {
-						return
-					}
-					for _, wr := range w.invokeWrites(h, f) {
-						n++
-						c.Anchor(rule, tn+"."+mn)
-						base, lo, hi := sliceRange(wr)
-						okWhy := ""
-						// (i) same range as a decoded integer
-						w.eachInstr(f, func(in2 ssa.Instruction) {
-							c2, ok := in2.(*ssa.Call)
-							if !ok || c2.Call.StaticCallee() == nil || len(c2.Call.Args) < 2 {
-								return
-							}
-							name := c2.Call.StaticCallee().Name()
-							if wd := uintWidth(name, "Uint"); wd > 0 && strings.Contains(c2.Call.StaticCallee().String(), "encoding/binary") {
-								b2, lo2, _ := sliceRange(c2.Call.Args[1])
-								if b2 == base && lo2 == lo && hi == lo2+wd {
-									okWhy = fmt.Sprintf("MAC input [%d:%d] is exactly the range %s decodes the timestamp from", lo, hi, name)
-								}
-							}
-						})
-						// (ii) low-order bytes of an encoded integer
-						if okWhy == "" {
-							w.eachInstr(f, func(in2 ssa.Instruction) {
-								c2, ok := in2.(*ssa.Call)
-								if !ok || c2.Call.StaticCallee() == nil || len(c2.Call.Args) < 3 {
-									return
-								}
-								name := c2.Call.StaticCallee().Name()
-								if wd := uintWidth(name, "PutUint"); wd > 0 {
-									b2, lo2, _ := sliceRange(c2.Call.Args[1])
-									if b2 == base && hi == lo2+wd && hi-lo >= 4 && lo >= lo2 {
-										okWhy = fmt.Sprintf("MAC input [%d:%d] holds the %d low-order bytes of the %s-encoded timestamp", lo, hi, hi-lo, name)
-									}
-								}
-							})
+			for _, m := range macs {
+				h, f := m.h, m.h.Parent()
+				for _, wr := range m.writes {
+					n++
+					c.Anchor(rule, tn+"."+mn)
+					base, lo, hi := sliceRange(wr)
+					okWhy := ""
+					// (i) same range as a decoded integer
+					for _, c2 := range calls {
+						if len(c2.args) < 2 {
+							continue
 						}
-						if okWhy != "" {
-							c.OK(rule, fname(f), "MAC input", w.instrPos(h), okWhy)
-						} else {
-							c.Bad(rule, fname(f), "MAC input", w.instrPos(h), fmt.Sprintf("MAC input %s (= %s[%d:%d]) is neither the range the timestamp is decoded from nor the low-order bytes of an encoded timestamp: the MAC does not bind the timestamp, a re-stamped nonce would validate", w.key(wr), w.key(base), lo, hi))
+						if wd := uintWidth(c2.name, "Uint"); wd > 0 && strings.Contains(c2.full, "encoding/binary") {
+							b2, lo2, _ := sliceRange(c2.args[1])
+							if b2 == base && lo2 == lo && hi == lo2+wd {
+								okWhy = fmt.Sprintf("MAC input [%d:%d] is exactly the range %s decodes the timestamp from", lo, hi, c2.name)
+							}
 						}
 					}
-				})
+					// (ii) low-order bytes of an encoded integer
+					if okWhy == "" {
+						for _, c2 := range calls {
+							if len(c2.args) < 3 {
+								continue
+							}
+							if wd := uintWidth(c2.name, "PutUint"); wd > 0 {
+								b2, lo2, _ := sliceRange(c2.args[1])
+								if b2 == base && hi == lo2+wd && hi-lo >= 4 && lo >= lo2 {
+									okWhy = fmt.Sprintf("MAC input [%d:%d] holds the %d low-order bytes of the %s-encoded timestamp", lo, hi, hi-lo, c2.name)
+								}
+							}
+						}
+					}
+					if okWhy != "" {
+						c.OK(rule, fname(f), "MAC input", w.instrPos(h), okWhy)
+					} else {
+						c.Bad(rule, fname(f), "MAC input", w.instrPos(h), fmt.Sprintf("MAC input %s (= %s[%d:%d]) is neither the range the timestamp is decoded from nor the low-order bytes of an encoded timestamp: the MAC does not bind the timestamp, a re-stamped nonce would validate", w.key(wr), w.key(base), lo, hi))
+					}
+				}
 			}
 			if n == 0 {
 				c.Bad(rule, fname(root), "MAC input", w.pos(root.Pos()), "no keyed HMAC input found in "+mn+" or its helpers: anchor gone")
